@@ -327,6 +327,43 @@ func (m *bitInterp) run(b, pred *ssa.BasicBlock) *bval {
 				m.env[x] = m.val(x.X)
 			case *ssa.BinOp:
 				m.env[x] = m.binop(x, m.val(x.X), m.val(x.Y))
+			case *ssa.Call:
+				// a pure one-block helper over words is inlined
+				sc := x.Call.StaticCallee()
+				if sc == nil || theProg == nil || !theProg.isArche(sc) || len(sc.Blocks) != 1 || len(sc.Params) != len(x.Call.Args) {
+					return m.fail("instruction %T is outside the fragment", ins)
+				}
+				for i, pr := range sc.Params {
+					m.env[pr] = m.val(x.Call.Args[i])
+				}
+				var res *bval
+				for _, hi := range sc.Blocks[0].Instrs {
+					switch h := hi.(type) {
+					case *ssa.BinOp:
+						m.env[h] = m.binop(h, m.val(h.X), m.val(h.Y))
+					case *ssa.Convert:
+						a := m.val(h.X)
+						if a.kind == "int" && m.isWordType(h.Type()) {
+							m.env[h] = &bval{kind: "vec", vec: constVec(uint64(a.i), m.width)}
+						} else {
+							m.env[h] = a
+						}
+					case *ssa.ChangeType:
+						m.env[h] = m.val(h.X)
+					case *ssa.DebugRef:
+					case *ssa.Return:
+						if len(h.Results) != 1 {
+							return m.fail("helper %s returns %d values", sc.Name(), len(h.Results))
+						}
+						res = m.val(h.Results[0])
+					default:
+						return m.fail("instruction %T in helper %s is outside the fragment", hi, sc.Name())
+					}
+				}
+				if res == nil {
+					return m.fail("helper %s has no result", sc.Name())
+				}
+				m.env[x] = res
 			case *ssa.Store:
 				a, v := m.val(x.Addr), m.val(x.Val)
 				if a.kind != "addr" {
